@@ -114,7 +114,7 @@ int main(void) {
              * prints: <hex frame(s)> flushes=<consumed:produced;...> calls=<n> noprogress=<n> */
             char* ps = strtok(NULL, " "); size_t n, dn = 0; unsigned char* in = zv_unhex(strtok(NULL, " "), &n);
             char* ins = strtok(NULL, " "); char* outs = strtok(NULL, " "); char* dirs = strtok(NULL, " "); char* dh = strtok(NULL, " ");
-            unsigned char* d = dh ? zv_unhex(dh, &dn) : NULL;
+            int tr = dh && !strcmp(dh, "trace"); unsigned char* d = (dh && !tr) ? zv_unhex(dh, &dn) : NULL;
             size_t ic[64], oc[64]; int ni = 0, no = 0, ii = 0, oi = 0, di = 0, nd = (int)strlen(dirs); char* sv; char* t; char* save = NULL; char* kv;
             size_t cap = ZSTD_compressBound(n) + 24 * n + (1 << 20); unsigned char* out = (unsigned char*)malloc(cap); size_t consumed = 0, produced = 0, r = 0; int calls = 0, noprog = 0;   /* every 1-byte flush costs a block (or a whole MT job) */
             char fl[4096]; size_t fll = 0; int ended = 0; fl[0] = 0;
@@ -123,6 +123,7 @@ int main(void) {
             ZSTD_CCtx_reset(cctx, ZSTD_reset_session_and_parameters);
             for (kv = strtok_r(ps, ",", &save); kv && !ZSTD_isError(r); kv = strtok_r(NULL, ",", &save)) { int id, val; if (sscanf(kv, "%d=%d", &id, &val) == 2) r = ZSTD_CCtx_setParameter(cctx, (ZSTD_cParameter)id, val); }
             if (d && !ZSTD_isError(r)) r = ZSTD_CCtx_loadDictionary(cctx, d, dn);
+            if (tr) printf("trace");
             while (!ZSTD_isError(r) && !ended && calls < 4000000) {
                 size_t isz = ic[ii++ % ni], osz = oc[oi++ % no]; ZSTD_inBuffer ib; ZSTD_outBuffer ob; ZSTD_EndDirective dir; char dc = dirs[di++ % nd];
                 if (isz > n - consumed) isz = n - consumed;
@@ -130,16 +131,21 @@ int main(void) {
                 dir = dc == 'f' ? ZSTD_e_flush : dc == 'e' ? ZSTD_e_end : ZSTD_e_continue;
                 if (consumed == n && isz == 0) dir = ZSTD_e_end;      /* all input delivered: finish */
                 if (dir == ZSTD_e_end && consumed + isz < n) dir = ZSTD_e_flush;                   /* only end with the last input (single frame) */
-                ib.src = in + consumed; ib.size = isz; ib.pos = 0; ob.dst = out + produced; ob.size = osz; ob.pos = 0;
-                r = ZSTD_compressStream2(cctx, &ob, &ib, dir); calls++;
-                if (ZSTD_isError(r)) break;
+                { int sIn = 0, sOut = 0; size_t c0 = consumed, p0 = produced;
+                  ZSTD_CCtx_getParameter(cctx, ZSTD_c_stableInBuffer, &sIn); ZSTD_CCtx_getParameter(cctx, ZSTD_c_stableOutBuffer, &sOut);
+                  if (sIn) { ib.src = in; ib.size = consumed + isz; ib.pos = consumed; } else { ib.src = in + consumed; ib.size = isz; ib.pos = 0; }
+                  if (sOut) { ob.dst = out; ob.size = produced + osz; ob.pos = produced; } else { ob.dst = out + produced; ob.size = osz; ob.pos = 0; }
+                  r = ZSTD_compressStream2(cctx, &ob, &ib, dir); calls++;
+                  if (ZSTD_isError(r)) break;
+                  if (sIn) ib.pos -= c0; if (sOut) ob.pos -= p0; }
                 if (isz > 0 && osz > 0 && ib.pos == 0 && ob.pos == 0 && !(dir == ZSTD_e_end && r == 0)) noprog++;
+                if (tr) printf(" %c%zu/%zu:%zu/%zu:%s", dc, ib.pos, isz, ob.pos, osz, r == 0 ? "0" : "+");
                 consumed += ib.pos; produced += ob.pos;
                 if (dir == ZSTD_e_flush && r == 0 && fll + 48 < sizeof fl) fll += (size_t)sprintf(fl + fll, "%s%zu:%zu", fll ? ";" : "", consumed, produced);
                 if (dir == ZSTD_e_end && r == 0 && consumed == n) ended = 1;
-                if (ib.pos < ib.size) { ii--; }   /* re-offer what was not consumed: shrink the next chunk to the remainder */
-                if (ib.pos < ib.size) { ic[(ii) % ni] = ic[ii % ni]; }
+                if (ib.pos < isz) { ii--; }   /* re-offer: the same chunk size is presented again from the new position */
             }
+            if (tr) printf("\n");
             if (ZSTD_isError(r)) printf("err %s calls=%d consumed=%zu\n", zv_errclass(r), calls, consumed);
             else { zv_puthex(out, produced); printf(" flushes=%s calls=%d noprogress=%d\n", fll ? fl : "-", calls, noprog); }
             free(in); free(out); free(d);
@@ -216,6 +222,25 @@ int main(void) {
                 if (ZSTD_isError(r)) break; r = produced; }
             if (dd) { if (ZSTD_isError(r)) printf("err %s\n", zv_errclass(r)); else printf("ok %zu %016llx\n", produced, (unsigned long long)XXH64(out, produced, 0)); }
             ZSTD_freeDCtx(dc); ZSTD_freeDDict(dd); free(in); free(out); free(d);
+        } else if (!strcmp(op, "dechint")) {
+            /* dechint <cap> <hex> <outchunk> : feed ZSTD_decompressStream EXACTLY the number of bytes it asks for; input is followed by garbage
+             * prints the hint sequence summary: ok <produced> <hash> consumed=<n> hints=<h1,h2,...(first 12)> overask=<0|1> */
+            size_t cap = (size_t)strtoull(strtok(NULL, " "), NULL, 10), n; unsigned char* in0 = zv_unhex(strtok(NULL, " "), &n); size_t oc = (size_t)strtoull(strtok(NULL, " "), NULL, 10);
+            unsigned char* in = (unsigned char*)malloc(n + 64); unsigned char* out = (unsigned char*)malloc(cap ? cap : 1); size_t consumed = 0, produced = 0, hint, r = 1; int calls = 0, over = 0; char hs[400]; size_t hl = 0;
+            memcpy(in, in0, n); memset(in + n, 0xEE, 64);
+            ZSTD_DCtx_reset(dctx, ZSTD_reset_session_and_parameters); hint = ZSTD_initDStream(dctx); hs[0] = 0;
+            while (calls++ < 2000000) { ZSTD_inBuffer ib; ZSTD_outBuffer ob; size_t osz = oc > cap - produced ? cap - produced : oc;
+                if (hl + 24 < sizeof hs && calls <= 12) hl += (size_t)sprintf(hs + hl, "%s%zu", hl ? "," : "", hint);
+                if (hint > n - consumed) { over = 1; break; }    /* asks for bytes beyond the end of the frame(s) */
+                ib.src = in + consumed; ib.size = hint; ib.pos = 0; ob.dst = out + produced; ob.size = osz; ob.pos = 0;
+                r = ZSTD_decompressStream(dctx, &ob, &ib); if (ZSTD_isError(r)) break;
+                consumed += ib.pos; produced += ob.pos;
+                if (r == 0) { if (consumed == n) break; hint = 5; /* next frame, same session: no reset */ if (n - consumed < 5) hint = n - consumed; continue; }
+                hint = (ib.pos < ib.size) ? (ib.size - ib.pos) : r;      /* unconsumed input is re-offered first (output was full) */
+                if (ib.pos == 0 && ob.pos == 0 && ib.size == 0 && osz == 0) break; }
+            if (ZSTD_isError(r)) printf("err %s consumed=%zu hints=%s\n", zv_errclass(r), consumed, hs);
+            else printf("ok %zu %016llx consumed=%zu hints=%s overask=%d lastret=%s\n", produced, (unsigned long long)XXH64(out, produced, 0), consumed, hs, over, r == 0 ? "0" : "+");
+            free(in0); free(in); free(out);
         } else if (!strcmp(op, "cbound")) {
             unsigned long long n = strtoull(strtok(NULL, " "), NULL, 10); size_t b = ZSTD_compressBound((size_t)n); if (ZSTD_isError(b)) printf("E\n"); else printf("%llu\n", (unsigned long long)b);
         } else if (!strcmp(op, "ccap")) {
